@@ -124,3 +124,12 @@ package internal
 //@     invariant len(cmd) >= 2
 //@ func IsWriteCommand trusted props C07
 //@   modifies nothing
+
+// ---- message framing ---------------------------------------------------------------------------
+// ReadMessage collects 8192-byte chunks and ends the message only at a read that delivered fewer bytes than asked for, or
+// with an error (EOF): a full chunk is never taken for the end of a message. ($lastread / $lastreaderr: byte count and error
+// flag of the last bufio Read - the reader itself is outside the proof. bytes.Trim is assumed to write nothing.)
+//@ func ReadMessage props C12
+//@   ensures {C12} ends-at-short-read: result1 == nil ==> $lastread < 8192 || $lastreaderr
+//@   loop 0
+//@     invariant len(chunk) == 8192 && fresh(chunk) && (res == nil || fresh(res))
